@@ -158,3 +158,25 @@ Example ex_gaps :
   strip_blanks (nlhs ex_gq1) = strip_blanks (nlhs ex_gq2) /\ strip_blanks (nrhs ex_gq1) = strip_blanks (nrhs ex_gq2) /\
   nflat (nrm (whole_toks ex_gq1)) = "Y[t]=X[t]+Z[t]**2" /\ nflat (nrm (whole_toks ex_gq2)) = "Y[t] = X[t] + Z[t] ** 2 ".
 Proof. vm_compute. repeat split; reflexivity. Qed.
+
+(* ---- two accepted statements whose graph does not describe what the code does (second independent review) ---- *)
+Definition graph_view (r : pres (list symbol)) : option (list (string * option string) * list (string * string)) :=
+  match r with POk l => match symbols_to_graph_M l with Ret g => Some (gnodes g, gedges g) | Raise _ => None end | _ => None end.
+(* a second statement after ";": ONE equation for Y whose code also assigns Z; Z stays EXOGENOUS, has no equation node, and the
+   graph says Z[t] -> Y[t] although Z is written, not read *)
+Example ex_semicolon_statement :
+  view_of (parse_model_nocheck "Y = X; Z = Y")
+  = Some [(Some "Y", TEndogenous, Some "Y[t] = X[t]; Z[t] = Y[t]", Some "self._Y[t] = self._X[t]; self._Z[t] = self._Y[t]");
+          (Some "X", TExogenous, None, None); (Some "Z", TExogenous, None, None)] /\
+  graph_view (parse_model_nocheck "Y = X; Z = Y")
+  = Some ([("Y[t]", Some "Y[t] = X[t]; Z[t] = Y[t]"); ("X[t]", None); ("Z[t]", None)], [("X[t]", "Y[t]"); ("Z[t]", "Y[t]"); ("Y[t]", "Y[t]")]).
+Proof. vm_compute. split; reflexivity. Qed.
+(* a name inside a string literal is rewritten like a term: the graph has the edge W[t] -> Y[t], the code compares with the
+   string 'self._W[t]' and never reads W *)
+Example ex_term_in_string_literal :
+  view_of (parse_model_nocheck "Y = X if S == 'W' else Z")
+  = Some [(Some "Y", TEndogenous, Some "Y[t] = X[t] if S[t] == 'W[t]' else Z[t]", Some "self._Y[t] = self._X[t] if self._S[t] == 'self._W[t]' else self._Z[t]");
+          (Some "X", TExogenous, None, None); (Some "if", TKeyword, None, None); (Some "S", TExogenous, None, None); (Some "W", TExogenous, None, None);
+          (Some "else", TKeyword, None, None); (Some "Z", TExogenous, None, None)] /\
+  (exists nodes edges, graph_view (parse_model_nocheck "Y = X if S == 'W' else Z") = Some (nodes, edges) /\ In ("W[t]", "Y[t]") edges).
+Proof. split; [vm_compute; reflexivity|]. eexists. eexists. split; [vm_compute; reflexivity|]. vm_compute. tauto. Qed.
